@@ -97,6 +97,8 @@ def init_line(conf):
     cs = ",".join("%d.%d.%d.%d" % (c["f"], c["v"], int(c["eq"]), c["cell"]) for c in conds)
     lo = ",".join(str(x) for x in conf.get("Loopers", [])) or "-"
     kt = "kthr=%d " % conf["kthr"] if conf.get("kthr") else ""      # built with LONG_WAIT_THRESHOLD = kthr (checks/common.py kdefs)
+    if conf.get("_flavour"):
+        kt = "flavour=%s " % conf["_flavour"] + kt      # which atomic.h flavour the harness was built with
     return kt + "NV=%d Binary=%d Loopers=%s conds=%s progs=%s" % (conf.get("NV", 2), int(bool(conf.get("Binary", False))), lo, cs, progs)
 
 
